@@ -146,6 +146,9 @@ func scanGuard(c *core.Ctx) []ob {
 				}
 				return true
 			})
+			// the same through chains of such locals (totDegree := degree0 + degree1; degree0, degree1 := op0.Degree(), …):
+			// the condition with every single-definition local replaced by its definition
+			cond += " ; " + expandLocals(fd, is, is.Cond, 0)
 			for _, t := range g.tokens {
 				any := false
 				for _, alt := range strings.Split(t, "|") {
@@ -223,4 +226,49 @@ func init() {
 			}
 			return out
 		}})
+}
+
+// expandLocals renders e with every identifier that has exactly one definition before the statement `at` (in the
+// function body) replaced by the rendering of that definition, recursively.
+func expandLocals(fd *ast.FuncDecl, at ast.Node, e ast.Expr, depth int) string {
+	if depth > 5 {
+		return exprString(e)
+	}
+	switch x := e.(type) {
+	case *ast.ParenExpr:
+		return "(" + expandLocals(fd, at, x.X, depth) + ")"
+	case *ast.Ident:
+		var defs []ast.Expr
+		ast.Inspect(fd.Body, func(y ast.Node) bool {
+			as, ok := y.(*ast.AssignStmt)
+			if !ok || len(as.Lhs) != len(as.Rhs) {
+				return true
+			}
+			for i, l := range as.Lhs {
+				if lid, ok := l.(*ast.Ident); ok && lid.Name == x.Name && as.Pos() < at.Pos() {
+					defs = append(defs, as.Rhs[i])
+				}
+			}
+			return true
+		})
+		if len(defs) == 1 {
+			r := expandLocals(fd, at, defs[0], depth+1)
+			if _, bin := unparen(defs[0]).(*ast.BinaryExpr); bin && depth > 0 {
+				return "(" + r + ")"
+			}
+			return r
+		}
+		return x.Name
+	case *ast.BinaryExpr:
+		return expandLocals(fd, at, x.X, depth+1) + " " + x.Op.String() + " " + expandLocals(fd, at, x.Y, depth+1)
+	case *ast.UnaryExpr:
+		return x.Op.String() + expandLocals(fd, at, x.X, depth+1)
+	case *ast.CallExpr:
+		var as []string
+		for _, a := range x.Args {
+			as = append(as, expandLocals(fd, at, a, depth+1))
+		}
+		return exprString(x.Fun) + "(" + strings.Join(as, ", ") + ")"
+	}
+	return exprString(e)
 }
